@@ -2,6 +2,10 @@
 # Full .vo build of the Coq development (no -vos). Usage: coq/build.sh [make targets...]
 set -e
 cd "$(dirname "$0")"
+# one build at a time in this directory (several checks/agents may call this concurrently)
+mkdir -p ../.cache
+exec 9> ../.cache/coq-build.lock
+flock 9
 {
   echo "-Q . L4"
   echo "-arg -w -arg -notation-overridden,-abstract-large-number,-deprecated-hint-without-locality,-deprecated-instance-without-locality"
@@ -13,4 +17,4 @@ if ! cmp -s _CoqProject.new _CoqProject 2>/dev/null; then
 else
   rm -f _CoqProject.new
 fi
-exec timeout 3000 make -j16 --no-print-directory "$@"
+timeout 3000 make -j16 --no-print-directory "$@"
